@@ -815,9 +815,8 @@ class EvolvedMF:
             # if this time is in the desired output times extract solutions
             # --------------------------------------------------------------
 
-            if ti in self.tout:
-
-                iout = np.where(self.tout == ti)[0][0]
+            # (every requested age equal to this time gets its own row)
+            for iout in np.flatnonzero(self.tout == ti):
 
                 # ----------------------------------------------------------
                 # Extract the N, M and alphas for stars and remnants
@@ -1186,9 +1185,8 @@ class EvolvedMFWithBH(EvolvedMF):
             # if this time is in the desired output times extract solutions
             # --------------------------------------------------------------
 
-            if ti in self.tout:
-
-                iout = np.where(self.tout == ti)[0][0]
+            # (every requested age equal to this time gets its own row)
+            for iout in np.flatnonzero(self.tout == ti):
 
                 # ----------------------------------------------------------
                 # Extract the N, M and alphas for stars and remnants
